@@ -611,6 +611,21 @@ func (s *Sim) genOpOf(kind string) (Op, bool) {
 					sub = append(sub, o)
 				}
 			}
+			// directed: a queue is draining - the cleaner and a reload that touches the tree meet
+			if saved["reload_valid"] && s.post != nil && r.Bool(0.5) {
+				draining := false
+				for _, path := range sortedKeys(s.post.Queues) {
+					if s.post.Queues[path].Status == "Draining" {
+						draining = true
+					}
+				}
+				if draining {
+					if ro, ok := s.genReload(); ok {
+						sub = append(sub[:0], ro, Op{Kind: "tick", Type: "cleanup"})
+						s.probe("directed_reload_meets_cleaner")
+					}
+				}
+			}
 			if len(sub) < 2 {
 				continue
 			}
